@@ -110,6 +110,10 @@ def run(ctx):
         else:
             stmts = [g.stmt() for _ in range(rng.randint(1, 3))]
         a = grammar.render_script(stmts, grammar.Layout(rng, comments=0, tight=rng.choice([0.0, 0.3])), final_semi=rng.random() < 0.5)
+        if rng.random() < 0.1 and len(stmts) > 1:
+            # T-SQL batches: statements separated by a GO line (issue762: GO is a statement separator)
+            lay = grammar.Layout(rng, comments=0)
+            a = '\nGO\n'.join(lay.render(st) for st in stmts)
         b = respell(rng, a)
         compare(ctx, a, b)
         texts += [a, b]
